@@ -11,7 +11,8 @@ also as wrapper source when it defines Gillespie_Arbitrary) and emits, for every
 A forwarding call site is a call expression located in the body of a module-level
 function W of simulation.py / analytic.py whose callee resolves to a module-level
 function F of one of the EoN files above, written `F(...)`, `EoN.F(...)`,
-`EoN.<module>.F(...)`.  Calls inside nested functions / lambdas of W count as sites of W.
+`EoN.<module>.F(...)`.  Calls inside nested functions / lambdas of W count as sites of W; methods of module-level
+classes are wrappers named "Class.method".
 Site ids are "W->F@n" with n the 0-based rank of the call among ALL forwarding calls
 of W in source order (line, column).
 
@@ -19,6 +20,8 @@ HIGHER-ORDER sites.  Two library idioms hand an EoN function and its argument tu
 a library that performs the call; they are emitted as sites too (id "W->F@n" as above,
 field s_via = "odeint" / "Q.add"):
   integrate.odeint(F, X0, times, args=(a1,..,ak))   calls  F(<X0>, <t>, a1,..,ak)
+  _my_odeint_(F, X0, times, args=(a1,..,ak))        the same (EoN's own odeint stand-in;
+                                                    the call of _my_odeint_ itself is a direct site too)
   Q.add(time, F, args=(a1,..,ak))                   calls  F(time, a1,..,ak)
      (myQueue.pop_and_run does `function(t, *args)` with t the queued time)
 When `args=` is not a literal tuple (one site: _find_next_trans_SIS_Markov forwards a
@@ -56,6 +59,9 @@ Fail-closed (exit 2, message names construct, file, line):
     the call is written EoN.F(...),
   * `EoN.X(...)` / `EoN.mod.X(...)` where X is defined nowhere in the EoN package,
   * a call through a local variable / attribute / subscript that holds an EoN function,
+  * `from EoN... import ...`, relative imports or `import EoN.x as y` in a wrapper
+    module (EoN names would be reachable under names this translator does not track),
+  * a function defined inside a module-level if/try/with/for,
   * source that does not parse.
 Calls to anything that is not an EoN module-level function (numpy, networkx, classes
 such as EoN.Simulation_Investigation / EoN.EoNError, methods) are ignored.
@@ -120,10 +126,19 @@ class Module:
             elif isinstance(n, (ast.Import, ast.ImportFrom)):
                 for a in n.names:
                     self.globals.add((a.asname or a.name).split('.')[0])
+                    if name in WRAPPER_MODULES:
+                        # the only way EoN names enter a wrapper module is `import EoN`
+                        if isinstance(n, ast.ImportFrom) and (n.level > 0 or (n.module or '').split('.')[0] == 'EoN'):
+                            refuse(name, n, 'from-import of EoN names (`from %s import %s`)' % ('.' * n.level + (n.module or ''), a.name))
+                        if isinstance(n, ast.Import) and a.name.split('.')[0] == 'EoN' and (a.asname or a.name != 'EoN'):
+                            refuse(name, n, 'aliased import of an EoN module (`import %s as %s`)' % (a.name, a.asname))
             else:
                 for t in ast.walk(n):
                     if isinstance(t, ast.Name) and isinstance(t.ctx, ast.Store):
                         self.globals.add(t.id)
+                    if isinstance(t, (ast.FunctionDef, ast.AsyncFunctionDef)) and name in WRAPPER_MODULES \
+                            and not isinstance(n, (ast.FunctionDef, ast.ClassDef)):
+                        refuse(name, t, 'function %s defined conditionally at module level' % t.name)
 
 
 def signature_of(mod, fn):
@@ -301,6 +316,11 @@ class Translator:
             M = self.mods[mod]
             for wname, fn in M.funcs.items():
                 self.do_wrapper(mod, wname, fn)
+            for cls in M.tree.body:          # methods are wrappers "Class.method"
+                if isinstance(cls, ast.ClassDef):
+                    for fn in cls.body:
+                        if isinstance(fn, (ast.FunctionDef, ast.AsyncFunctionDef)):
+                            self.do_wrapper(mod, cls.name + '.' + fn.name, fn)
         return self
 
     def do_wrapper(self, mod, wname, fn):
@@ -335,10 +355,12 @@ class Translator:
             if tgt is not None:
                 consumed.add(id(f))
                 found.append((c, tgt, 'direct', list(c.args), list(c.keywords)))
-                continue
+                if tgt[1] != '_my_odeint_':
+                    continue
             # higher-order idioms
             via = None
-            if isinstance(f, ast.Attribute) and f.attr == 'odeint' and len(c.args) >= 1:
+            if ((isinstance(f, ast.Attribute) and f.attr == 'odeint') or
+                    (tgt is not None and tgt[1] == '_my_odeint_')) and len(c.args) >= 1:
                 via, fexpr, pre = 'odeint', c.args[0], ['<odeint:y>', '<odeint:t>']
             elif isinstance(f, ast.Attribute) and f.attr == 'add' and isinstance(f.value, ast.Name) \
                     and f.value.id == 'Q' and len(c.args) >= 2:
